@@ -42,7 +42,8 @@ inductive JTy
   | time                        -- time.Time: decimal string of nanoseconds
   | hex (min max : Nat)         -- []byte: 0x-prefixed hex string
   | harr                        -- [N]byte by value
-  | pharr (key : Bytes)         -- *[N]byte with registered type settings: {key: hex}
+  | pharr (key : Bytes)         -- *[N]byte / [N]byte of a type registered with an object code: {key: hex}
+  | ohex (key : Bytes) (min max : Nat)  -- a []byte type registered with an object code: {key: hex}, bounds under validation
   | sl (min max : Nat) (e : JTy)
   | arr (n : Nat) (e : JTy)
   | map (min max : Nat) (k v : JTy)
@@ -276,6 +277,16 @@ def dec (c : Cfg) : JTy → Json → Res
       | some (.str s) => ofBool (hexDecode s).isSome
       | _ => bad c
     | _ => bad c
+  | .ohex key mn mx, j =>
+    match j with
+    | .obj kvs =>
+      match kvs.lookup key with
+      | some (.str s) =>
+        match hexDecode s with
+        | none => .err
+        | some n => ofBool (!(c.validate && boundsBad mn mx n))
+      | _ => bad c
+    | _ => bad c
   | .sl mn mx e, j =>
     match j with
     | .arr xs =>
@@ -416,6 +427,7 @@ def parseTy : Nat → List String → Option (JTy × List String)
   | _ + 1, "hex" :: mn :: mx :: ts => do pure (.hex (← mn.toNat?) (← mx.toNat?), ts)
   | _ + 1, "flt" :: b :: ts => do pure (.flt (← b.toNat?), ts)
   | _ + 1, "pharr" :: k :: ts => do pure (.pharr (← parseKey k), ts)
+  | _ + 1, "ohex" :: k :: mn :: mx :: ts => do pure (.ohex (← parseKey k) (← mn.toNat?) (← mx.toNat?), ts)
   | f + 1, "sl" :: mn :: mx :: ts => do
     let (e, ts') ← parseTy f ts
     pure (.sl (← mn.toNat?) (← mx.toNat?) e, ts')
